@@ -71,7 +71,7 @@ GEN = {"fileio": ("FileIO.tla", "MC_FileIO.cfg", False), "wasm": ("MC_Wasm.tla",
        "fileconc": ("FileIO2.tla", "MC_FileIO2.cfg", False),
        "histories": ("MC_Builder.tla", "MC_Builder_{variant}_{tier}.cfg", False),
        "sessions": ("MC_RenderSession.tla", "MC_RenderSession_{tier}.cfg", True)}
-PROPS["C14"] = dict(scen=[("core", "histories:SeqEclMask", True), ("core", "histories:SeqModeVersion", True), ("core", "histories:EclMask", True), ("core", "histories:ModeVersion", True), ("core", "histories:EclVersion", True), ("core", "histories:SeqRejected", True), ("core", "histories:Rejected", True), ("core", "aftermath", True), ("core", "walk", True), ("core", "threads", True), ("core", "sessions", True), ("core", "soak", True)],
+PROPS["C14"] = dict(scen=[("core", "histories:SeqEclMask", True), ("core", "histories:SeqModeVersion", True), ("core", "histories:EclMask", True), ("core", "histories:ModeVersion", True), ("core", "histories:EclVersion", True), ("core", "histories:SeqRejected", True), ("core", "histories:Rejected", True), ("core", "aftermath", True), ("core", "walk", True), ("hooked", "tiewalk", False), ("core", "threads", True), ("core", "sessions", True), ("core", "soak", True)],
                     mc={"quick": [], "thorough": []},
                     invariants="Deterministic, SnapshotIsRegisters, BuildReadOnly (MC_Builder, every interleaving of 2 builders x 2 threads; GEN -> replay); HNew/HSet/HBuild judged on the registers the model holds, equal registers => equal results, renders read-only and repeatable (TV)")
 
@@ -104,7 +104,7 @@ CLAIMS = {
          "XML and SVG path syntax are read by the sensor (roxmltree, kurbo), not by TLA+. hrefs are compared modulo XML attribute-value normalisation."),
  "C13": ("Pixmaps of 6 shapes x versions x margins x 6 fit modes x 4 colour pairs are projected to a palette and a per-cell palette index (plus cell uniformity at integer scale); TLC computes the expected side and premultiplied colours from the program and judges every cell centre (>= 4 px per module, or square at integer scale) and every cell of square symbols; the PNG is decoded independently and must equal the pixmap. Also: every fit side from 4 to 8 pixels per cell on two small symbols, fit sides up to 8 250 px, margins up to 1 100 (4 096 thorough) with a windowed observation.",
          "resvg's rasterisation is observed, not modelled; translucent module colours are outside the claimed domain."),
- "C14": ("TLC explores every interleaving of setters and builds of 2 builders x 2 threads (length 4/5) and every sequential program of one builder (length 6/7), exports them, and the harness replays each on real QRBuilders with persistent worker threads; every build is judged on the registers the MODEL holds for that builder, and equal registers must give equal results across all histories; seeded concurrent programs on 1..16 threads add shared builders and all three renderers (read-only, repeatable, distinguishing different codes); renderer sessions exported by TLC from RenderSession.tla (setter calls and renderings interleaved on one builder object) must render like a fresh builder given the same calls; the histories are also replayed with option values under which one builder is REJECTED (forced mode that cannot carry its input: caught panic, no claim about that build) or fails with a documented error, and `aftermath` puts eight kinds of such disturbances between two identical requests on one thread - what follows a rejected request is judged like any other build; a soak run repeats one build and one rendering 6 000 / 70 000 times and every result must equal the first.",
+ "C14": ("TLC explores every interleaving of setters and builds of 2 builders x 2 threads (length 4/5) and every sequential program of one builder (length 6/7), exports them, and the harness replays each on real QRBuilders with persistent worker threads; every build is judged on the registers the MODEL holds for that builder, and equal registers must give equal results across all histories; seeded concurrent programs on 1..16 threads add shared builders and all three renderers (read-only, repeatable, distinguishing different codes); renderer sessions exported by TLC from RenderSession.tla (setter calls and renderings interleaved on one builder object) must render like a fresh builder given the same calls; the histories are also replayed with option values under which one builder is REJECTED (forced mode that cannot carry its input: caught panic, no claim about that build) or fails with a documented error, and `aftermath` puts eight kinds of such disturbances between two identical requests on one thread - what follows a rejected request is judged like any other build; a walk over hundreds of different requests in shuffled order and `tiewalk` (inputs whose two best masks tie exactly, each built after predecessors of the same version ending on every mask) compare matrix digests; builds and renderings are also issued from a thread-local destructor at thread exit; a soak run repeats one build and one rendering 6 000 / 70 000 times and every result must equal the first.",
          "Real OS schedules are sampled; the exhaustive interleaving is of the model, whose thread-locality is what per-thread validation binds to the code."),
  "C15": ("Type labels of every module of every built symbol (and of the blank symbols, and before/after each mask sweep) against the region map of QRLayout.tla; the number of data labels against 8 x total codewords + remainder bits.",
          "Modules where an alignment pattern lies on a timing line may carry either label (ISO assigns them to both)."),
